@@ -3,7 +3,9 @@
 The obligations of C09 are stated on *path conditions*: for a block of a function, the set of acyclic entry->block
 paths, each a conjunction of literals (the branch decisions taken).  Unlike edge dominance (`guards.conditions`) this
 also sees guards spelled with `||` / `&&`, `matches!`, named intermediate booleans, early returns and closures run by
-`bool::then`; a boolean that is assigned in several places is resolved to the assignment that lies on the path.
+`bool::then`; a boolean that is assigned in several places is resolved to the assignment that lies on the path; a tested
+call of a workspace predicate function that decides by control flow (`fn ok(..) -> bool { matches!(..) }`) is replaced by
+the ways through its body that return the tested outcome (PathConds.pred_alts), in the caller's terms.
 
     paths(fn, bb) -> [ (Lit, ...) , ... ]      every way of reaching bb (closures: joined with the ways of reaching
                                                the call that runs them)
@@ -39,9 +41,30 @@ class _TooMany(Exception):
     pass
 
 
-def norm_bool(sl, v, oc):
+class _KeyedPath:
+    """a conjunction compared by its literals (for removing duplicates)"""
+    __slots__ = ('path', 'k')
+
+    def __init__(self, path):
+        self.path = path
+        self.k = tuple((l.kind, l.key, l.outcome) for l in path)
+
+    def __hash__(self):
+        return hash(self.k)
+
+    def __eq__(self, other):
+        return self.k == other.k
+
+
+def _opaque_phi(v):
+    """a join of boolean literals: the value of a predicate whose body decides by control flow — inlining it would
+    forget what is decided"""
+    return v[0] == 'phi' and any(x[0] == 'const' for x in v[1])
+
+
+def norm_bool(sl, v, oc, phi_ok=True):
     """normal form of a tested boolean: negations peeled, `a != b` read as `!(a == b)`, private boolean helpers
-    replaced by what they return"""
+    replaced by what they return (phi_ok=False: only when that is a single expression)"""
     for _ in range(8):
         if v[0] == 'un' and v[1] == 'Not':
             v, oc = v[2], (not oc)
@@ -51,7 +74,7 @@ def norm_bool(sl, v, oc):
             continue
         if v[0] == 'call':
             iv = sl.inline_call(v)
-            if iv is not None and iv != v:
+            if iv is not None and iv != v and (phi_ok or not _opaque_phi(iv)):
                 v = iv
                 continue
         break
@@ -65,6 +88,7 @@ class PathConds:
         self.limit = limit
         self._cache = {}
         self._ctx = {}
+        self._expanding = []
 
     # ---- values on a path ---------------------------------------------------------------------------
     def resolve(self, fn, op, path):
@@ -130,6 +154,12 @@ class PathConds:
                 oc = False
             else:
                 return None
+            v2, oc2 = norm_bool(self.sl, val, oc, phi_ok=False)
+            if v2[0] == 'call' and v2[1] in self.prog.fns:
+                # a predicate function deciding by control flow: the ways through its body that return this outcome
+                alts = self.pred_alts(v2, oc2)
+                if alts is not None:
+                    return ('alts', alts) if alts else False
             val, oc = norm_bool(self.sl, val, oc)
             if val[0] == 'const' and isinstance(val[1], bool):
                 return None if val[1] == oc else False
@@ -141,6 +171,50 @@ class PathConds:
                 return None if val[1] == labels[0] else False
             return Lit('int', val, labels[0])
         return None
+
+    def pred_alts(self, v, oc, depth=0):
+        """`helper(args) == oc` for a workspace function returning bool, as the disjunction of the ways through its
+        body that return oc: [conjunction of literals in the caller's terms, ...]; None when they cannot be enumerated.
+        `fn ok(r, v) -> bool { matches!(Regex::new(r).and_then(|r| r.is_match(v)), Ok(true)) }` tested true yields
+        the single way `is_match(unwrap(Regex::new(r)), v)` is Ok and its payload is true."""
+        g = self.prog.fns.get(v[1])
+        if g is None or g.kind == 'Closure' or g.ret != 'bool' or g.partial_defs(0) or g.path in self._expanding or len(self._expanding) > 2:
+            return None
+        live = g.reachable(0)
+        defs = [d for d in g.whole_defs(0) if d[1] in live]
+        blocks = [d[1] for d in defs]
+        if not defs or len(set(blocks)) != len(blocks):
+            return None
+        if any((g.reachable(b) - {b}) & set(blocks) or g.in_loop(b) for b in blocks):
+            return None     # a later assignment would override this one
+        m = {(g.path, i): a for i, a in enumerate(v[2]) if i < g.argc}
+        out = []
+        self._expanding.append(g.path)
+        try:
+            for d in defs:
+                if d[0] == 'stmt':
+                    rv = self.sl._rvalue(g, d[3], set(), 0, None)
+                elif d[0] == 'call':
+                    rv = self.sl._call_value(g, d[3], set(), 0)
+                else:
+                    return None
+                rv, want = norm_bool(self.sl, rv, oc)
+                if rv[0] == 'const' and isinstance(rv[1], bool):
+                    if rv[1] != want:
+                        continue
+                    tail = ()
+                else:
+                    tail = (Lit('bool', rv, want),)
+                lp = self.local_paths(g, d[1])
+                if lp is None:
+                    return None
+                for p in lp:
+                    out.append(tuple(Lit(l.kind, subst(l.value, m, self.sl), l.outcome) for l in p + tail))
+                if len(out) > self.limit:
+                    return None
+        finally:
+            self._expanding.pop()
+        return [kp.path for kp in dict.fromkeys(_KeyedPath(p) for p in out)]
 
     # ---- paths --------------------------------------------------------------------------------------
     def local_paths(self, fn, bb):
@@ -182,6 +256,10 @@ class PathConds:
                 seen.append(s)
                 lit = self.edge_literal(fn, b, s, path)
                 if lit is False:
+                    continue
+                if isinstance(lit, tuple):      # ('alts', ..): one continuation per way of deciding the predicate
+                    for alt in lit[1]:
+                        go(s, path + [s], lits + list(alt))
                     continue
                 go(s, path + [s], lits + [lit] if lit is not None else lits)
         try:
@@ -452,6 +530,34 @@ def pull_status(conds, fn, call):
     return st
 
 
+# ---- destructuring ----------------------------------------------------------------------------------------------
+
+def is_field_alias(fn, dest, bb):
+    """`dest = move <x.field>` only renames the field: dest is a whole local assigned exactly once, in a block that every
+    execution of fn passes (it dominates all return blocks and is in no loop), and never written partially"""
+    if len(dest) != 1:
+        return False
+    loc = dest[0]
+    if len(fn.whole_defs(loc)) != 1 or fn.partial_defs(loc) or fn.in_loop(bb):
+        return False
+    rets = fn.return_blocks()
+    return bool(rets) and all(fn.dominates(bb, r) for r in rets)
+
+
+def field_alias_value(sl, fn, pl):
+    """('field', base, name) when place `pl` is a whole local that is_field_alias of a field"""
+    if not pl or len(pl) != 1 or 1 <= pl[0] <= fn.argc:
+        return None
+    ds = fn.whole_defs(pl[0])
+    if len(ds) != 1 or ds[0][0] != 'stmt' or ds[0][3]['r'] != 'use' or not is_field_alias(fn, (pl[0],), ds[0][1]):
+        return None
+    src = op_place(ds[0][3]['o'])
+    if not src or len(src) < 2:
+        return None
+    v = strip(sl.place(fn, src))
+    return v if v[0] == 'field' else None
+
+
 # ---- regex-match decisions ------------------------------------------------------------------------------------
 
 def match_literal(sl, lit):
@@ -512,3 +618,69 @@ def display_pieces(sl, dsp):
         return None
     text = strip(text)
     return list(text[1]) if text[0] == 'fmt' else [text]
+
+
+# ---- rendered text ----------------------------------------------------------------------------------------------
+
+def seq_elems(sl, v, depth=0):
+    """the elements of a finite literal sequence in order, with map closures applied:
+    [a, b].map(f) / [a, b].iter().map(f).collect::<Vec<_>>() / once(a).chain([b]) -> [f(a), f(b)]; None when the
+    elements are not a fixed list (joins of alternatives, filters, unknown sources)"""
+    v = strip(v)
+    if depth > 8:
+        return None
+    if v[0] == 'array':
+        return list(v[1])
+    if v[0] != 'call' or not v[2]:
+        return None
+    name, args = v[1], v[2]
+    if name == 'std::iter::once' and len(args) == 1:
+        return [args[0]]
+    if name == IT + 'chain' and len(args) == 2:
+        a, b = seq_elems(sl, args[0], depth + 1), seq_elems(sl, args[1], depth + 1)
+        return None if a is None or b is None else a + b
+    if (name == IT + 'map' or (name.startswith('std::array::<impl [') and name.endswith('::map'))) and len(args) == 2:
+        src = seq_elems(sl, args[0], depth + 1)
+        if src is None:
+            return None
+        out = [sl.apply_closure(strip(args[1]), (e,)) for e in src]
+        return None if any(r is None for r in out) else out
+    if len(args) == 1 and (name in (IT + 'collect', 'std::iter::FromIterator::from_iter', IT + 'cloned', IT + 'copied') or
+                           (not name.startswith(IT) and name.endswith(('::iter', '::into_iter', '::to_vec', '::as_slice', '::into_vec')))):
+        return seq_elems(sl, args[0], depth + 1)
+    return None
+
+
+def text_pieces(sl, v, depth=0):
+    """what a string-valued expression renders, as format pieces (literal text, or a value standing for its Display
+    output) — the same list for `format!("{}.{}", a, b)`, `[a, b].map(|x| x.to_string()).join(".")`,
+    `a.to_string() + "." + &b.to_string()`"""
+    v = strip(v)
+    if depth > 6:
+        return [v]
+    out = []
+    if v[0] == 'const' and isinstance(v[1], str):
+        out = [v[1]]
+    elif v[0] == 'fmt':
+        for p in v[1]:
+            out.extend([p] if isinstance(p, str) else text_pieces(sl, p, depth + 1))
+    elif v[0] == 'call' and v[1].endswith('ToString>::to_string') and len(v[2]) == 1:
+        out = text_pieces(sl, v[2][0], depth + 1)
+    elif v[0] == 'call' and v[1].startswith('std::slice::<impl [') and v[1].endswith(('::join', '::concat')) and 1 <= len(v[2]) <= 2:
+        elems = seq_elems(sl, v[2][0])
+        sep = text_pieces(sl, v[2][1], depth + 1) if len(v[2]) == 2 else []
+        if elems is None or not all(isinstance(p, str) for p in sep):
+            return [v]
+        for i, e in enumerate(elems):
+            if i:
+                out.extend(sep)
+            out.extend(text_pieces(sl, e, depth + 1))
+    else:
+        return [v]
+    merged = []
+    for p in out:
+        if isinstance(p, str) and merged and isinstance(merged[-1], str):
+            merged[-1] += p
+        elif p != '':
+            merged.append(p)
+    return merged
